@@ -71,8 +71,8 @@ fn bank_info(rng: &mut Rng, hostile: bool) -> String {
     match rng.below(if hostile { 7 } else { 4 }) {
         0 => "0:0:0:0:".to_string(),
         1 => format!("{}:{}:0:0:", b(rng), b(rng)),
-        2 => format!("{}:{}:{}:{}:", b(rng), b(rng), rng.pick(&["0", "1", "2", "5"]), rng.pick(&["0", "30", "100"])),
-        3 => format!("{}:{}:0:50:{}", b(rng), b(rng), rng.pick(&["hit.wav", "", "a b.ogg"])),
+        2 => format!("{}:{}:{}:{}:", b(rng), b(rng), rng.pick(&["0", "1", "2", "5", "-1"]), rng.pick(&["0", "30", "100", "101", "150"])),
+        3 => format!("{}:{}:0:50:{}", b(rng), b(rng), rng.pick(&["hit.wav", "", "a b.ogg", "sfx\\hit.wav"])),
         4 => "7:-1:2147483647:0:".to_string(),
         5 => "1".to_string(),
         _ => "x:y".to_string(),
@@ -211,9 +211,10 @@ pub fn gen_map(rng: &mut Rng, o: &GenOpts) -> String {
         let x = rng.below(512) as i32;
         let y = rng.below(384) as i32;
         let nc = if rng.chance(1, 4) { 4 + 16 * rng.below(4) as i32 } else { 0 };
-        let snd = *rng.pick(&[0, 2, 4, 8, 6, 14, 1]);
+        let snd = if rng.chance(1, 2) { *rng.pick(&[0, 2, 4, 8, 6, 14, 1]) } else { rng.below(16) as i32 };
         let line = match rng.below(if mode == 3 { 5 } else { 4 }) {
-            0 | 1 => format!("{x},{y},{ot},{},{snd},{}", 1 + nc, bank_info(rng, h)),
+            // (the type field is an integer of which only the low byte matters)
+            0 | 1 => format!("{x},{y},{ot},{},{snd},{}", 1 + nc + if rng.chance(1, 12) { 256 * (1 + rng.below(300) as i32) } else { 0 }, bank_info(rng, h)),
             2 => {
                 let rep = *rng.pick(&[1, 1, 2, 3]);
                 let len = num(rng, h, &["100", "140.5", "35", "250.75", "0", "60.0000009536743"]);
